@@ -585,17 +585,19 @@ Definition st_key_shortcut (s : sc) : res sc :=
   if is_name c then ROk (set_step KeyShortcut s) else st_end_value s.
 
 (* ---- user comments ---- *)
-Definition st_any_comment_start (s : sc) : res sc :=
-  if negb (ch c 35) then ROk (set_step InlineComment (set_ann ANone s))
-  else if next_is 35 then ROk (set_step MultiLineComment (set_ann ANone s))
-  else err_char.
-
 Definition st_inline_comment (s : sc) : res sc :=
   if is_nl c then
     do fs <- pop_rts s ;
     let '(f, s) := fs in
     ROk (set_back true (found NewLine (set_step f s)))
   else ROk s.
+
+(* fix (empty # comment): the byte after '#' is given to stateInlineComment at once, so that an
+   empty comment ends with its line *)
+Definition st_any_comment_start (s : sc) : res sc :=
+  if negb (ch c 35) then st_inline_comment (set_step InlineComment (set_ann ANone s))
+  else if next_is 35 then ROk (set_step MultiLineComment (set_ann ANone s))
+  else err_char.
 
 Definition st_multi_line_comment (s : sc) : res sc :=
   match la with
